@@ -599,4 +599,129 @@ theorem GRel.port_eq {po : Option Nat} (hpo : portVal g.port = some po) : g₀.p
 
 end
 
+
+/-! ## the parser on the string the hostname helpers build -/
+
+/-- the string the hostname helpers clean: resolved (on request), control characters removed,
+stripped — no `upper_quoted` -/
+def helperClean (ir : Bool) (u : Str) : Str := strip (stripControl (if ir then infer u else u))
+
+theorem resolvedClean_eq (ir : Bool) (u : Str) : resolvedClean ir u = upperQuoted (helperClean ir u) := rfl
+
+theorem noCtl_helperClean (ir : Bool) (u : Str) : NoCtl (helperClean ir u) :=
+  NoCtl.of_subset (strip_subset _) (noCtl_stripControl _)
+
+/-- **the modelled parser on the helper's string**: for every string of the class (host not an
+IP literal and without `%`, port text a port) it finds the host of the grammar, lower-cased —
+the host `normalize_url`'s parse holds -/
+theorem helper_host {ir : Bool} {g : UrlG} {u : Str} {po : Option Nat} (hg : InClassOf ir g u)
+    (hbr : g.br = false) (hpo : portVal g.port = some po) (hpct : '%' ∉ g.host) :
+    hostOfModel (ensureProtocol (helperClean ir u) httpStr) = g.hostname := by
+  have hrel : UpRel (helperClean ir u) g.str := by
+    rw [← hg.reaches, resolvedClean_eq]
+    exact upRel_upperQuoted _
+  obtain ⟨g₀, hc, hG⟩ := grammar_decomp g hbr _ hrel
+  have hwf₀ := hG.wf hg.wf hbr
+  have hns : NoUnsafe g₀.rest := by
+    intro c hcm
+    apply unsafe_of_ctl
+    apply noCtl_helperClean ir u c
+    rw [hc]; unfold UrlG.str
+    exact List.mem_append_right _ hcm
+  obtain ⟨e1, _⟩ := parse_str g₀ hwf₀ hns
+  have hp : parseUrl (ensureHttp (helperClean ir u)) = some (g₀.record po) := by
+    rw [hc, e1]
+    unfold UrlG.parsed
+    rw [hG.port_eq hpo, hpo]; rfl
+  rw [hostOfModel_ensureProtocol, hostOfModel_of_parseUrl hp]
+  exact hG.hostname hpct
+
+
+/-! ## the host the parser reads off a reparsed result -/
+
+theorem hostOfModel_of_split5 {s : Str} {P : Ural.Lru.Parts} (h : modelSplit5 s = some P) :
+    hostOfModel s = hostname P.netloc := by
+  rw [hostOfModel_hostname]
+  unfold modelSplit5 at h
+  cases hr : Py.urlsplit s [] with
+  | none => rw [hr] at h; cases h
+  | some r =>
+    rw [hr] at h
+    simp only [Option.map_some, Option.some.injEq] at h
+    subst h; rfl
+
+/-! ## the decoder keeps lower case -/
+
+/-- what the hostname equations assume of `attempt_to_decode_idna` (on top of `PunyClean`): a
+lower-case label is decoded to a lower-case label (ASCII letters: the codec copies the basic code
+points of the label; evaluated on the real decoder on every run).  Needed because
+`normalize_hostname` does not lower-case what follows `amp-` after decoding it, while the
+`.hostname` accessor lower-cases what it reads from the result of `normalize_url`. -/
+def PunyLower (puny : Str → Str) : Prop := ∀ x, lower x = x → lower (puny x) = puny x
+
+theorem punyLower_id : PunyLower id := fun _ h => h
+
+def LowerFixed (s : Str) : Prop := ∀ c ∈ s, lowerChar c = c
+
+theorem lowerFixed_iff {s : Str} : lower s = s ↔ LowerFixed s := by
+  unfold LowerFixed Py.lower
+  induction s with
+  | nil => simp
+  | cons a b ih =>
+    simp only [List.map_cons, List.cons.injEq, List.mem_cons, forall_eq_or_imp, ih]
+
+theorem lowerFixed_lower (s : Str) : LowerFixed (lower s) :=
+  lowerFixed_iff.1 (Ural.Canonicalize.lower_idem s)
+
+theorem LowerFixed.of_subset {s t : Str} (h : t ⊆ s) (hs : LowerFixed s) : LowerFixed t :=
+  fun c hc => hs c (h hc)
+
+theorem decodePuny_lowerFixed {puny : Str → Str} (hpl : PunyLower puny) {h : Str} (hh : LowerFixed h) :
+    LowerFixed (decodePunycodeHostname puny h) := by
+  intro c hc
+  unfold decodePunycodeHostname at hc
+  rcases mem_join _ _ hc with h2 | ⟨q, hq, hx⟩
+  · simp only [List.mem_singleton] at h2; subst h2; decide
+  · simp only [List.mem_map] at hq
+    obtain ⟨part, hpart, rfl⟩ := hq
+    have hsub := piece_subset h '.' part hpart
+    have hp : LowerFixed part := hh.of_subset hsub
+    split at hx
+    · have hy : LowerFixed (lower (part.take 4) ++ part.drop 4) := by
+        intro d hd
+        rcases List.mem_append.1 hd with h1 | h1
+        · exact lowerFixed_lower _ d h1
+        · exact hp d (List.mem_of_mem_drop h1)
+      exact lowerFixed_iff.1 (hpl _ (lowerFixed_iff.2 hy)) c hx
+    · exact hp c hx
+
+/-- **the normalized hostname is lower-case** (`PunyLower`) -/
+theorem normHost_lowerFixed {puny : Str → Str} (hpl : PunyLower puny) (o : Normalize.Opts) (h : Str)
+    (hh : LowerFixed h) : LowerFixed (normHost puny o h) := by
+  rw [Ural.C03.normHost_eq]
+  split
+  · exact hh
+  · unfold Ural.C03.hostSteps
+    simp only
+    have h0 : LowerFixed (Ural.Canonicalize.canonHost puny h) := lowerFixed_lower _
+    have h1 : LowerFixed (if (!(Ural.Canonicalize.canonHost puny h).isEmpty && o.stripIrrelevantSubdomains) = true
+        then subdomainSub o.normalizeAmp (Ural.Canonicalize.canonHost puny h)
+        else Ural.Canonicalize.canonHost puny h) := by
+      split
+      · exact h0.of_subset (NormReparse.subdomainSub_subset _ _)
+      · exact h0
+    generalize (if (!(Ural.Canonicalize.canonHost puny h).isEmpty && o.stripIrrelevantSubdomains) = true
+        then subdomainSub o.normalizeAmp (Ural.Canonicalize.canonHost puny h)
+        else Ural.Canonicalize.canonHost puny h) = x at h1 ⊢
+    split
+    · unfold stripAmpPrefix
+      split
+      · have h2 : LowerFixed (decodePunycodeHostname puny (x.drop 4)) :=
+          decodePuny_lowerFixed hpl (h1.of_subset (List.drop_subset _ _))
+        split
+        · exact h2.of_subset (NormReparse.subdomainSub_subset _ _)
+        · exact h2
+      · exact h1
+    · exact h1
+
 end Ural.C07
